@@ -329,7 +329,18 @@ def run(chk):
                     tr = x.findtext("IsTruncated") == "true"
                     nk, ni = x.findtext("NextKeyMarker") or "", x.findtext("NextUploadIdMarker") or ""
                     # directory order of the per-key hash directories is not key order: the model takes the sorted list as the backend sorts it (stable)
-                    luterms.append((km, int(mu) if mu else 1000, page, tr, nk, ni))
+                    luterms.append((km, int(mu) if mu else 1000, page, tr, nk, ni, "", False))
+        # the same with an upload id marker (the markers of a truncated page name an upload; several uploads of the key "c")
+        for km, im in [(k_, u_) for k_, u_ in sorted(ups) if k_ in ("a", "c", "e")]:
+            for mu in ["1", "2", "1000"]:
+                q = {"uploads": "", "key-marker": km, "upload-id-marker": im, "max-uploads": mu}
+                t0 = time.time(); r = cl.req("GET", "/bkt0", query=q); dt = time.time() - t0
+                after("ListMultipartUploads " + json.dumps(q), "GET", r, dt, {"query": q})
+                chk.case(("lu", km, im, mu), True)
+                if r.status == 200 and r.xml() is not None:
+                    x = r.xml()
+                    page = [(u.findtext("Key"), u.findtext("UploadId")) for u in x.findall("Upload")]
+                    luterms.append((km, int(mu), page, x.findtext("IsTruncated") == "true", x.findtext("NextKeyMarker") or "", x.findtext("NextUploadIdMarker") or "", im, True))
         # ---- grammar-based malformed requests
         eps = c02.endpoints(uid)
         eps.append(("SelectObjectContent", "POST", "/bk1/obj", {"select": "", "select-type": "2"},
@@ -589,16 +600,16 @@ def run(chk):
                                 "can panic outside the modelled functions are not proved absent." % chk.evaluations)
     if not built:
         return
-    for km, mu, page, tr, nk, ni in luterms:
-        lumeta.append({"key_marker": km, "max_uploads": mu, "page": page, "truncated": tr})
+    for km, mu, page, tr, nk, ni, im, found in luterms:
+        lumeta.append({"key_marker": km, "upload_id_marker": im, "max_uploads": mu, "page": page, "truncated": tr})
     text = ("From Coq Require Import String List ZArith Bool.\nFrom VGW Require Import Base.GoStr Model.Paging Check.Common Check.PagingCheck.\n"
             "Import ListNotations.\nOpen Scope string_scope.\n")
     text += "Definition lbcases : list lbcase :=\n " + coq_list(lbterms).replace("; {| lb_fis", ";\n {| lb_fis") + ".\n"
     pair = lambda p: "(%s, %s)" % (coq_str(p[0]), coq_str(p[1]))
     text += "Definition ups : list (string * string) := " + coq_list([pair(u) for u in upl_sorted]) + ".\n"
     text += "Definition lucases : list lucase :=\n " + coq_list([
-        "{| lu_sorted := ups; lu_km := %s; lu_im := \"\"; lu_found := false; lu_max := %d; lu_obs := (%s, %s, (%s, %s)) |}" % (
-            coq_str(km), mu, coq_list([pair(p) for p in page]), coq_bool(tr), coq_str(nk), coq_str(ni)) for km, mu, page, tr, nk, ni in luterms]) + ".\n"
+        "{| lu_sorted := ups; lu_km := %s; lu_im := %s; lu_found := %s; lu_max := %d; lu_obs := (%s, %s, (%s, %s)) |}" % (
+            coq_str(km), coq_str(im), coq_bool(found), mu, coq_list([pair(p) for p in page]), coq_bool(tr), coq_str(nk), coq_str(ni)) for km, mu, page, tr, nk, ni, im, found in luterms]) + ".\n"
     text += ("Definition MLB := Eval vm_compute in bad lb_ok lbcases.\nPrint MLB.\nDefinition MLU := Eval vm_compute in bad lu_ok lucases.\nPrint MLU.\n")
     rc, out = coq.run_cases("C20_cases", text)
     mlb, mlu = coq.printed_list(out, "MLB"), coq.printed_list(out, "MLU")
